@@ -9,6 +9,13 @@ ENGINES = [
 NOTES = "All checks are bounded-exhaustive explorations of the real implementation (no sampling); see DESIGN.md."
 NOT_APPLICABLE = {}
 CHECKS = {
+    "C06": {
+        "engine": "progspace (E1)",
+        "category": "exploration",
+        "technique": "bounded-exhaustive twin-run exploration: all programs/chains x all decision paths x ALL subsets of observation points x repetition x analysis mode, differential oracle against the unobserved run, weakref/refcount retention checks",
+        "text": "For every program (E1) and chain (E2) within the bounds and every subset of its suspension/probe points, the run with extract() at exactly those points must have the same event log, yields and outcome as the unobserved twin; consecutive extractions of an unchanged target compare equal; after dropping results every manager, the target and its frame are collectable and value-stack refcounts return to baseline; a worker killed by a signal is reported with the in-flight case.",
+        "note": "The harness's own frames are on the running stack at probe points and are kept identical between repetitions. Refcount baseline is taken after gc.collect(). Bounds in evidence coverage.bounds.",
+    },
     "C20": {
         "engine": "progspace (E1)",
         "category": "exploration",
